@@ -182,6 +182,15 @@ def _iscan():
     raise RuntimeError("C14 iscan_p harness missing")
 HARNESSES += _iscan()
 
+HARNESSES.append(
+    dict(name="extscan", src="extscan.c",
+         funcs=["scan_extent_node", "mark_block_used", "mark_blocks_used"],
+         configs=[{"DEPTH": 1}, {"DEPTH": 0}],
+         unwind=4, unwindset=["main.%d:10" % i for i in range(16)] + ["scan_extent_node.%d:5" % i for i in range(6)] + ["vf_fill.0:4", "vf_fill.1:4", "vf_fill.2:4",
+                              "vf_count_here.0:4", "fix_problem.0:4", "ext2fs_mark_generic_bmap.0:10", "ext2fs_mark_block_bitmap_range2.0:10"],
+         backends=["default", "kissat"],
+         bound="regular file; depth-1 tree: root index node with 1..2 entries over leaf nodes with 1..2 extents each; depth-0 tree: 1..3 extents; every "
+               "ei_block / leaf block / lblk / pblk / len / uninit flag, blocks_count and first data block symbolic (lblk < 2^31, pblk < 2^48, len <= 32768); e2fsck -n"))
 MANIFEST = {
     "text": "Kernel-level slice (partial). Detector completeness against an independent format predicate, bounded-exhaustive: every extent header "
             "violating (magic, entries <= max, max entries fit the node) is rejected by ext2fs_extent_header_verify for every node size; every "
